@@ -89,32 +89,66 @@ func c02HookPositional(c *Ctx) {
 	info := fi.Pkg.TypesInfo
 	var split *ast.CallExpr
 	var splitVar types.Object
-	ast.Inspect(fi.Decl.Body, func(n ast.Node) bool {
-		as, ok := n.(*ast.AssignStmt)
-		if !ok || len(as.Lhs) != 1 || len(as.Rhs) != 1 {
-			return true
-		}
-		call, ok := as.Rhs[0].(*ast.CallExpr)
-		if !ok {
-			return true
-		}
-		fn := calleeOf(info, call)
-		if fn == nil || fn.Pkg() == nil || fn.Pkg().Path() != "strings" {
-			return true
-		}
-		if containsNode(call, func(m ast.Node) bool {
-			s, ok := m.(*ast.SelectorExpr)
-			return ok && s.Sel.Name == "params"
-		}) {
-			split = call
-			if id, ok := as.Lhs[0].(*ast.Ident); ok {
-				splitVar = info.ObjectOf(id)
+	body := fi.Decl.Body
+	isParams := func(m ast.Node) bool {
+		s, ok := m.(*ast.SelectorExpr)
+		return ok && s.Sel.Name == "params"
+	}
+	findSplit := func(b *ast.BlockStmt, isSrc func(ast.Node) bool) {
+		ast.Inspect(b, func(n ast.Node) bool {
+			as, ok := n.(*ast.AssignStmt)
+			if !ok || len(as.Lhs) != 1 || len(as.Rhs) != 1 {
+				return true
 			}
-		}
-		return true
-	})
+			call, ok := as.Rhs[0].(*ast.CallExpr)
+			if !ok {
+				return true
+			}
+			fn := calleeOf(info, call)
+			if fn == nil || fn.Pkg() == nil || fn.Pkg().Path() != "strings" {
+				return true
+			}
+			if containsNode(call, isSrc) {
+				split, body = call, b
+				if id, ok := as.Lhs[0].(*ast.Ident); ok {
+					splitVar = info.ObjectOf(id)
+				}
+			}
+			return true
+		})
+	}
+	findSplit(fi.Decl.Body, isParams)
 	if split == nil {
-		c.undecided("C02.i", fi.Name+"/parameter split", fi.Decl.Pos(), "no strings.* call on p.params found in hook")
+		// the conversion may live in a helper that is handed the parameter bytes
+		ast.Inspect(fi.Decl.Body, func(n ast.Node) bool {
+			call, ok := n.(*ast.CallExpr)
+			if !ok || split != nil {
+				return true
+			}
+			hf := c.P.FuncOfObj(calleeOf(info, call))
+			if hf == nil || hf.Pkg != fi.Pkg || hf.Decl.Body == nil {
+				return true
+			}
+			var params []types.Object
+			for _, f := range hf.Decl.Type.Params.List {
+				for _, nm := range f.Names {
+					params = append(params, info.Defs[nm])
+				}
+			}
+			for i, a := range call.Args {
+				if i < len(params) && containsNode(a, isParams) {
+					po := params[i]
+					findSplit(hf.Decl.Body, func(m ast.Node) bool {
+						id, ok := m.(*ast.Ident)
+						return ok && info.Uses[id] == po
+					})
+				}
+			}
+			return true
+		})
+	}
+	if split == nil {
+		c.undecided("C02.i", fi.Name+"/parameter split", fi.Decl.Pos(), "no strings.* call on p.params found in hook or in a helper it passes p.params to")
 		return
 	}
 	fn := calleeOf(info, split)
@@ -123,7 +157,7 @@ func c02HookPositional(c *Ctx) {
 		"hook splits the DCS parameter bytes with strings."+fn.Name()+", which drops empty fields: an omitted parameter no longer holds its position (ESC P ;1;8 q gives [1 8] instead of [0 1 8])")
 	// every iteration over the fields appends exactly one parameter (or returns)
 	var loop *ast.RangeStmt
-	ast.Inspect(fi.Decl.Body, func(n ast.Node) bool {
+	ast.Inspect(body, func(n ast.Node) bool {
 		rs, ok := n.(*ast.RangeStmt)
 		if ok {
 			if id, isId := unparen(rs.X).(*ast.Ident); isId && info.ObjectOf(id) == splitVar {
